@@ -16,7 +16,8 @@ Inductive node :=
 | NVar (i : nat)                 (* i-th argument of the traced function *)
 | NCoef (k : nat)                (* k-th entry of the function's coefficient list (symbolic) *)
 | NAdd (a b : nat) | NSub (a b : nat) | NMul (a b : nat) | NDiv (a b : nat)
-| NNeg (a : nat) | NSqrt (a : nat)
+| NNeg (a : nat)
+| NSqrt (h : nat) (a : nat)                     (* h: atom index for the normaliser (shares the hint numbering); sqrt itself is IEEE *)
 | NExp (h : nat) (a : nat)                      (* math.exp; h = hint index *)
 | NPow (h : nat) (a : nat) (q : Q) (f : float)  (* x ** c for the literal double c *)
 | NCall (h : nat) (fid out : nat) (args : list nat)   (* out-th result of abstract function fid *)
@@ -35,7 +36,7 @@ Definition f_cowat := 3%nat.  Definition f_supst := 4%nat.  Definition f_tsat :=
 Section Eval.
   Context {A : Type}.
   Variables (dflt : A) (cst : Q -> float -> A) (add sub mul div : A -> A -> A)
-            (neg sqrt_ : A -> A) (exp_ : nat -> A -> A) (pow_ : nat -> A -> Q -> float -> A)
+            (neg : A -> A) (sqrt_ exp_ : nat -> A -> A) (pow_ : nat -> A -> Q -> float -> A)
             (call_ : nat -> nat -> nat -> list A -> A) (var coef : nat -> A).
 
   Definition get (env : list A) (d : nat) : A := nth d env dflt.
@@ -50,7 +51,7 @@ Section Eval.
     | NMul a b => mul (get env a) (get env b)
     | NDiv a b => div (get env a) (get env b)
     | NNeg a => neg (get env a)
-    | NSqrt a => sqrt_ (get env a)
+    | NSqrt h a => sqrt_ h (get env a)
     | NExp h a => exp_ h (get env a)
     | NPow h a q f => pow_ h (get env a) q f
     | NCall h fid out args => call_ h fid out (map (get env) args)
@@ -68,7 +69,7 @@ End Eval.
 (** ** PrimFloat *)
 Definition evalF (vars coefs hints : list float) (ns : list node) : list float :=
   eval_nodes nan (fun _ f => f) PrimFloat.add PrimFloat.sub PrimFloat.mul PrimFloat.div
-             PrimFloat.opp PrimFloat.sqrt
+             PrimFloat.opp (fun _ => PrimFloat.sqrt)
              (fun h _ => nth h hints nan) (fun h _ _ _ => nth h hints nan) (fun h _ _ _ => nth h hints nan)
              (fun i => nth i vars nan) (fun k => nth k coefs nan) [] ns.
 
@@ -155,7 +156,7 @@ Definition consts_consistent (ns : list node) : bool :=
 (** ** Reals *)
 Definition fnR := nat -> nat -> list R -> R.      (* function id, output index, arguments *)
 Definition evalR (fn : fnR) (var coef : nat -> R) (ns : list node) : list R :=
-  eval_nodes 0%R (fun q _ => Q2R q) Rplus Rminus Rmult Rdiv Ropp sqrt
+  eval_nodes 0%R (fun q _ => Q2R q) Rplus Rminus Rmult Rdiv Ropp (fun _ => sqrt)
              (fun _ x => exp x) (fun _ x q _ => Rpower x (Q2R q)) (fun _ fid out args => fn fid out args)
              var coef [] ns.
 
